@@ -11,6 +11,7 @@ def showCell : Cell → String
   | .table n => s!"table:{n}"
   | .dflt n => s!"dflt:{n}"
   | .glob n => s!"glob:{n}"
+  | .param n => s!"param:{n}"
 
 def showCells (cs : List Cell) : String :=
   let xs := (cs.map showCell).eraseDups
@@ -27,7 +28,8 @@ def cmdEffects (a : Args) : String := Id.run do
   let fresh := (σ.prog.disps.filter (·.fresh)).map (·.name)
   return s!"writes={showCells σ.prog.writes} exposed={showCells (σ.prog.exposed.filter Gen.volatile.contains)} " ++
     s!"nostale={b2s (noStale Gen.volatile [] σ.prog)} confined={b2s (confined Gen.volatile σ.prog)} " ++
-    s!"public={b2s σ.isPublic} fresh={if fresh.isEmpty then "-" else ",".intercalate fresh.eraseDups}"
+    s!"public={b2s σ.isPublic} fresh={if fresh.isEmpty then "-" else ",".intercalate fresh.eraseDups} " ++
+    s!"kernels={if σ.kernels.isEmpty then "-" else ",".intercalate σ.kernels}"
 
 /-- token semantics: a seed stores `1000 + seed argument`, a draw advances by one, the result is the list
     of everything observed -/
